@@ -138,13 +138,17 @@ def scen_chunk(args):
                             errs.append(f"codebasin -R clustering exited {rc}: {out[-200:]}{err[-200:]}")
                         else:
                             rows = {}
+                            cols = None
                             for line in out.splitlines():
                                 cells = [c.strip() for c in re.split(r"[│|]", line) if c.strip()]
+                                if cols is None and len(cells) == len(plats) and sorted(cells) == plats:
+                                    cols = cells          # header row: the matrix is read through its labels,
+                                    continue              # the order of rows and columns is not part of the result
                                 if cells and cells[0] in plats and len(cells) == len(plats) + 1:
                                     rows[cells[0]] = cells[1:]
-                            okm = sorted(rows) == plats
+                            okm = sorted(rows) == plats and cols is not None
                             for a in plats:
-                                for j, b in enumerate(plats):
+                                for j, b in enumerate(cols or []):
                                     if not okm:
                                         break
                                     num, den = rep["dist"][a][b]
